@@ -570,6 +570,17 @@ Definition keeps_break_flag (ec : list tok -> res song -> res song) : Prop :=
 Lemma add_log_break_flag s m : s_break_flag (add_log s m) = s_break_flag s.
 Proof. unfold add_log. destruct (_ <=? _); reflexivity. Qed.
 
+Lemma bf_upd_cur s f : s_break_flag (upd_cur s f) = s_break_flag s.
+Proof. reflexivity. Qed.
+Lemma bf_set_time s a b c d : s_break_flag (s_set_time s a b c d) = s_break_flag s.
+Proof. reflexivity. Qed.
+Lemma bf_set_play_from s v : s_break_flag (s_set_play_from s v) = s_break_flag s.
+Proof. reflexivity. Qed.
+Lemma bf_runtime_error s m : s_break_flag (runtime_error s m) = s_break_flag s.
+Proof. apply add_log_break_flag. Qed.
+Lemma bf_song_with_ls s ls : s_break_flag (song_with_ls s ls) = s_break_flag s.
+Proof. reflexivity. Qed.
+
 Lemma step_song_break_flag ec : keeps_break_flag ec ->
   forall t s s', step_song ec t s = Ok s' -> s_break_flag s' = s_break_flag s.
 Proof.
@@ -587,13 +598,21 @@ Proof.
   | (* Sub / Div *)
     solve [match goal with |- context [ec ?X (Ok ?x)] => destruct (ec X (Ok x)) as [s2| | |] eqn:E2 end;
            cbn [bind]; try discriminate; intros E; injection E as <-; apply Hec in E2; exact E2]
+  | (* macro call: the nested exec() *)
+    solve [intros E;
+           repeat (match type of E with
+                   | context [match vars_get ?n ?v with _ => _ end] => destruct (vars_get n v) as [[]|]
+                   | context [match ?a with Some _ => _ | None => _ end] => destruct a
+                   | context [bind (lex ?a ?b ?c) _] => destruct (lex a b c) as [[? ?]| | |]
+                   end; cbn [bind] in E; try discriminate);
+           apply Hec in E; rewrite E, bf_song_with_ls, ?add_log_break_flag; reflexivity]
   | (* argument lists *)
-    solve [unfold exec_voice, exec_get_time, exec_time_signature, runtime_error;
+    solve [unfold exec_voice, exec_get_time, exec_time_signature;
            match goal with |- context [match ?a with [] => _ | _ => _ end] => destruct a as [|a0 [|a1 [|a2 ar]]] end;
            intros E; injection E as <-;
-           cbn [s_break_flag upd_cur s_set_tracks s_set_time s_set_play_from];
            repeat match goal with |- context [if ?b then _ else _] => destruct b end;
-           rewrite ?add_log_break_flag; reflexivity] ].
+           repeat rewrite ?bf_upd_cur, ?bf_set_time, ?bf_set_play_from, ?bf_runtime_error;
+           reflexivity] ].
 Qed.
 
 Definition flag_kept (b : Z) (r : res song) : Prop := match r with Ok s => s_break_flag s = b | _ => True end.
